@@ -144,6 +144,15 @@ def rule_c(ctx):
     ctx.check(bool(st) and all(v[0] == 'const' and str(v[2]) == '0' for w, v in st), 'c', 'rewind_resets_unsent', sb, sb.where(), 'unsent = 0', 'SendBuffer rewind no longer resets `unsent` to 0')
     pdp = ctx.pfn('Connection::process_decrypted_packet')
     ctx.check(bool(pdp.calls_to('StreamsState::retransmit_all_for_0rtt')), 'c', 'retry_rewinds_early_streams', pdp, pdp.where(), 'Retry arm calls retransmit_all_for_0rtt', 'the Retry arm no longer re-queues early stream data')
+    # ... and the control frames carried by the abandoned early packets (RESET_STREAM, STOP_SENDING, MAX_*) go back to `pending`
+    r0s = pdp.calls_to('StreamsState::retransmit_all_for_0rtt')
+    # the Retry arm's drain = the one followed by retransmit_all_for_0rtt (the other drain is the rejection branch, which must discard)
+    drains = [c for c in pdp.calls_to('SentPackets::into_values') if any(x.bb in pdp.reachable_from(c.bb) for x in r0s)]
+    ctx.floor('c', 'retry_drain_sites', len(drains), 1)
+    for c in drains:
+        rs = flow_sinks(F, c, ['BitOrAssign::bitor_assign', 'Retransmits::bitor_assign'], via_field='retransmits')
+        ctx.check(bool(rs), 'c', 'retry_requeues_early_control_frames', pdp, c.where(), 'pending |= info.retransmits for every abandoned early packet',
+                  'control frames sent in 0-RTT before the Retry are dropped: the abandoned packets retransmits are not merged back into spaces[Data].pending')
 
 
 def rule_d(ctx):
